@@ -36,6 +36,60 @@ type rewriter struct {
 	rel   string
 	sites map[string]int
 	tmpN  int
+	io    bool // file-system calls (package os, io/ioutil, filepath.Glob, methods of *os.File) become scheduling points
+}
+
+// ioCall reports whether the statement contains a file-system call outside function literals.
+func (r *rewriter) ioCall(n ast.Node) bool {
+	found := false
+	ast.Inspect(n, func(c ast.Node) bool {
+		if found {
+			return false
+		}
+		if _, ok := c.(*ast.FuncLit); ok {
+			return false
+		}
+		call, ok := c.(*ast.CallExpr)
+		if !ok {
+			return true
+		}
+		sel, ok := call.Fun.(*ast.SelectorExpr)
+		if !ok {
+			return true
+		}
+		if id, ok := sel.X.(*ast.Ident); ok {
+			if pn, ok := r.info.Uses[id].(*types.PkgName); ok {
+				switch pn.Imported().Path() {
+				case "os", "io/ioutil":
+					switch sel.Sel.Name {
+					case "IsNotExist", "IsExist", "Getenv":
+					default:
+						found = true
+					}
+				case "path/filepath":
+					found = sel.Sel.Name == "Glob" || sel.Sel.Name == "Walk"
+				}
+				return true
+			}
+		}
+		if t := r.info.TypeOf(sel.X); t != nil {
+			if pt, ok := t.(*types.Pointer); ok {
+				if nt, ok := pt.Elem().(*types.Named); ok && nt.Obj().Pkg() != nil && nt.Obj().Pkg().Path() == "os" && nt.Obj().Name() == "File" {
+					found = true
+				}
+			}
+		}
+		return true
+	})
+	return found
+}
+
+func (r *rewriter) ioPoint(s ast.Stmt) []ast.Stmt {
+	if !r.io || !r.ioCall(s) {
+		return nil
+	}
+	r.count("io")
+	return []ast.Stmt{stmt(vsCall("PointAt", &ast.BasicLit{Kind: token.STRING, Value: strconv.Quote("io@" + r.posStr(s))}))}
 }
 
 func (r *rewriter) site(n ast.Node) *ast.BasicLit {
@@ -180,12 +234,17 @@ func (r *rewriter) rewriteStmt(s ast.Stmt) []ast.Stmt {
 	case *ast.IfStmt:
 		var pre []ast.Stmt
 		if x.Init != nil {
+			pre = append(pre, r.ioPoint(x.Init)...)
 			for _, ch := range r.recvOperands(x.Init) {
 				pre = append(pre, r.preRecv(ch, x))
 			}
 		}
 		for _, ch := range r.recvOperands(x.Cond) {
 			pre = append(pre, r.preRecv(ch, x))
+		}
+		if r.io && r.ioCall(x.Cond) {
+			r.count("io")
+			pre = append(pre, stmt(vsCall("PointAt", &ast.BasicLit{Kind: token.STRING, Value: strconv.Quote("io@" + r.posStr(x))})))
 		}
 		x.Body.List = r.rewriteList(x.Body.List)
 		if x.Else != nil {
@@ -280,14 +339,14 @@ func (r *rewriter) rewriteStmt(s ast.Stmt) []ast.Stmt {
 				return []ast.Stmt{x}
 			}
 		}
-		var pre []ast.Stmt
+		pre := r.ioPoint(x)
 		for _, ch := range r.recvOperands(x) {
 			pre = append(pre, r.preRecv(ch, x))
 		}
 		r.funcLits(x.X)
 		return append(pre, x)
 	case *ast.AssignStmt, *ast.DeclStmt, *ast.ReturnStmt, *ast.IncDecStmt:
-		var pre []ast.Stmt
+		pre := r.ioPoint(x)
 		for _, ch := range r.recvOperands(x) {
 			pre = append(pre, r.preRecv(ch, x))
 		}
@@ -479,7 +538,14 @@ func main() {
 	files := flag.String("files", "", "comma separated repo-relative files")
 	clock := flag.String("clock", "", "comma separated files whose time.Now/Since are virtualised")
 	mute := flag.String("mute", "", "comma separated files whose fmt.Printf calls are dropped")
+	iof := flag.String("io", "", "comma separated files whose file-system calls become scheduling points")
 	flag.Parse()
+	ioFiles := map[string]bool{}
+	for _, f := range strings.Split(*iof, ",") {
+		if f != "" {
+			ioFiles[filepath.Join(*repo, f)] = true
+		}
+	}
 	want := map[string]bool{}
 	pkgDirs := map[string]bool{}
 	for _, f := range strings.Split(*files, ",") {
@@ -523,7 +589,7 @@ func main() {
 				continue
 			}
 			rel, _ := filepath.Rel(*repo, path)
-			r := &rewriter{fset: p.Fset, info: p.TypesInfo, file: f, rel: rel, sites: map[string]int{}}
+			r := &rewriter{fset: p.Fset, info: p.TypesInfo, file: f, rel: rel, sites: map[string]int{}, io: ioFiles[path]}
 			for _, d := range f.Decls {
 				if fd, ok := d.(*ast.FuncDecl); ok && fd.Body != nil {
 					fd.Body.List = r.rewriteList(fd.Body.List)
